@@ -123,6 +123,7 @@ def audit(prop: str, thorough: bool = False) -> Audit:
     # function breaks the build of its tie proof (-> `broken` -> failing-input search).  The lock serialises
     # regenerate+build between checks that run at the same time with different $VERIF_REPO.
     gen_lock = None
+    refused = ""
     if os.environ.get("VERIF_GEN_TIE", "1") != "0" and any(
             f.parent.name == "NrfGen" for f in imports_closure(pfile)):
         import fcntl
@@ -131,15 +132,23 @@ def audit(prop: str, thorough: bool = False) -> Audit:
         fcntl.flock(gen_lock, fcntl.LOCK_EX)
         g = subprocess.run([sys.executable, str(VERIF / "tools" / "py2lean.py")], capture_output=True,
                            text=True, env={**os.environ, "VERIF_REPO": str(REPO)})
-        if g.returncode != 0:
+        if g.returncode != 0 and "REFUSED" not in g.stdout + g.stderr:
             gen_lock.close()
             raise Infra("py2lean: " + (g.stdout + g.stderr)[-1500:])
+        if g.returncode != 0:
+            # the source of a translated function left the translator's subset: the theorems about the generated
+            # definitions no longer speak about the current source.  That is a broken proof obligation (not
+            # infrastructure trouble): the check goes on to the correspondence and the failing-input search.
+            refused = "py2lean refused the current source (tie by translation broken): " + (g.stdout + g.stderr)[-800:]
     try:
         ok, log = lake_build([f"NrfProps.{prop}", "nrfdrv"])
     finally:
         if gen_lock is not None:
             gen_lock.close()
     a.log = log[-4000:]
+    if refused:
+        a.build_ok = False
+        a.problems.append(refused)
     if not ok:
         a.build_ok = False
         a.problems.append("lake build failed:\n" + log[-3000:])
